@@ -197,6 +197,35 @@ impl FileExt {
     pub fn copy_file(from: Vec<&str>, to: Vec<&str>) -> (r: Result<(), String>)
         requires false,
     { unimplemented!() }
+
+    // ---- the rest of the file-ext 12.1.0 API, so that any call resolves: pure helpers are unconstrained,
+    //      anything that reads a path requires containment ----
+    #[verifier::external_body]
+    pub fn working_directory() -> (r: Result<String, String>) { unimplemented!() }
+    #[verifier::external_body]
+    pub fn absolute_path_to_working_directory() -> (r: Result<String, String>) { unimplemented!() }
+    #[verifier::external_body]
+    pub fn does_directory_exist(path: &str) -> (r: bool)
+        requires fs_allowed(path@),
+    { unimplemented!() }
+    #[verifier::external_body]
+    pub fn does_symlink_exist(path: &str) -> (r: bool)
+        requires fs_allowed(path@),
+    { unimplemented!() }
+    #[verifier::external_body]
+    pub fn build_path(list: &[&str]) -> (r: String) { unimplemented!() }
+    #[verifier::external_body]
+    pub fn root() -> (r: String) { unimplemented!() }
+    #[verifier::external_body]
+    pub fn folder_up() -> (r: String) { unimplemented!() }
+    #[verifier::external_body]
+    pub fn get_current_user() -> (r: Result<String, String>) { unimplemented!() }
+    #[verifier::external_body]
+    pub fn get_temp_folder_path() -> (r: Result<String, String>) { unimplemented!() }
+    #[verifier::external_body]
+    pub fn file_length(path: Vec<&str>) -> (r: Result<u64, String>)
+        requires false,     // takes path segments: no caller on the request path; containment cannot be stated on segments
+    { unimplemented!() }
 }
 
 // the url-build-parse dependency behind URL::parse: NOTHING is assumed about the components it returns
